@@ -166,7 +166,7 @@ Pairs(U) == {<<m, n>> : m \in U, n \in U}
 Triples(U) == {<<m, n, o>> : m \in U, n \in U, o \in U}
 MC_ListsQ == {<<>>} \cup Singles(MC_Msgs) \cup Pairs({S1, S12, DEL, WX}) \cup Triples({S1, WD})
              \cup {<<S1, SD2, BURN>>, <<S11, S1>>, <<S2, S1>>}
-MC_ListsT == {<<>>} \cup Singles(MC_MsgsGen) \cup Pairs({S1, S2, SD2, S12, S11, DEL, WD, WX, BURN}) \cup Triples({S1, S12, WD, IBC})
+MC_ListsT == {<<>>} \cup Singles(MC_MsgsGen) \cup Pairs({S1, S2, SD2, S12, DEL, WX}) \cup Triples({S1, S12, WD})
 MC_ListsGen == {<<>>} \cup Singles(MC_MsgsGen) \cup Pairs({S1, S2, SD2, S12, DEL, WX}) \cup Triples({S1, SD2, RED})
              \cup {<<S1, SD2, BURN>>, <<S11, S1>>, <<S21, S12>>, <<S3, S1>>, <<SZ, S1>>, <<DEL, UND, RED>>, <<WD, SW, FP>>, <<S1, VOTE>>, <<IBC, S1>>,
                 <<S1, SUA>>, <<SFZ, SUA0>>, <<SINC, S1>>, <<SSP, DEL>>}
